@@ -698,6 +698,46 @@ type smGen struct {
 	illFormed map[string]bool
 	// set by schemaFor when it deliberately picked a type that does not fit the field
 	mismatch bool
+	// faithful: generate only pairs in the scope of the end-to-end round-trip theorem (rtOKB): exact field
+	// types, treat-empty-as-default only on optional leaves without default, presence rules only between
+	// properties on pointer / interface fields, optional non-pointer properties accept their zero value
+	faithful bool
+}
+
+// smExactCapable: can a property's reflected type be exactly this field type (or what it points to)?
+func smExactCapable(rt reflect.Type) bool {
+	switch rt.Kind() {
+	case reflect.String, reflect.Bool, reflect.Int64, reflect.Float64:
+		return rt.PkgPath() == ""
+	case reflect.Interface:
+		return true
+	case reflect.Pointer:
+		return rt == zmRegexpT || (rt.Elem().Kind() != reflect.Pointer && smExactCapable(rt.Elem()))
+	case reflect.Slice:
+		return smExactCapable(rt.Elem()) && rt.Elem().Kind() != reflect.Interface
+	case reflect.Map:
+		return rt.Key() == reflect.TypeOf("") && smExactCapable(rt.Elem())
+	case reflect.Struct:
+		return zmLookup(rt) != nil
+	}
+	return false
+}
+
+func smPtrLike(rt reflect.Type) bool {
+	return rt.Kind() == reflect.Pointer || rt.Kind() == reflect.Interface
+}
+
+// plainOf replaces a scalar schema by the unconstrained schema of its kind (it accepts the zero value)
+func smPlainOf(t *hx.Ty) *hx.Ty {
+	switch t.T {
+	case "int", "enumInt":
+		return &hx.Ty{T: "int"}
+	case "float":
+		return &hx.Ty{T: "float"}
+	case "str", "enumStr":
+		return &hx.Ty{T: "str"}
+	}
+	return t
 }
 
 func (q *smGen) p(x float64) bool { return q.g.R.Float64() < x }
@@ -729,7 +769,7 @@ func (q *smGen) bounds() (*string, *string) {
 
 // schemaFor picks a schema for a field of Go type ft.
 func (q *smGen) schemaFor(ft reflect.Type, depth int) *sTy {
-	if q.p(0.025) {
+	if !q.faithful && q.p(0.025) {
 		q.stats["prop:mismatched-type"]++
 		q.mismatch = true
 		return q.leaf(q.g.Scalar())
@@ -745,7 +785,7 @@ func (q *smGen) schemaFor(ft reflect.Type, depth int) *sTy {
 	case reflect.Float32, reflect.Float64:
 		return q.leaf(q.scalarOf("float"))
 	case reflect.Interface:
-		if q.p(0.6) {
+		if q.faithful || q.p(0.6) {
 			return q.leaf(&hx.Ty{T: "any"})
 		}
 		return q.leaf(q.g.Scalar())
@@ -772,7 +812,7 @@ func (q *smGen) schemaFor(ft reflect.Type, depth int) *sTy {
 		}
 		return q.leaf(&hx.Ty{T: "map", K: key, V: q.schemaFor(ft.Elem(), depth+1).Ty, Min: lo, Max: hi})
 	case reflect.Struct:
-		ptrT := q.p(0.04)
+		ptrT := q.p(0.04) && !q.faithful
 		if ptrT {
 			q.mismatch = true // T = *S for a field of type S
 		}
@@ -852,6 +892,7 @@ func (q *smGen) object(z *zmType, depth int, ptrT bool) *sTy {
 	rt := z.rt
 	usedField := map[string]bool{}
 	usedID := map[string]bool{}
+	ptrLikeID := map[string]bool{}
 	for i := 0; i < rt.NumField(); i++ {
 		f := rt.Field(i)
 		include := q.p(0.72)
@@ -864,15 +905,30 @@ func (q *smGen) object(z *zmType, depth int, ptrT bool) *sTy {
 		if depth >= 3 && hasStruct(f.Type) {
 			include = false
 		}
+		if q.faithful && (!f.IsExported() || !smExactCapable(f.Type)) {
+			include = false
+		}
 		if !include {
 			continue
 		}
 		tag := strings.SplitN(f.Tag.Get("json"), ",", 2)[0]
 		id := f.Name
-		if f.Tag.Get("json") != "" && q.p(0.88) && !(tag == "x" && q.p(0.85)) {
+		if f.Tag.Get("json") != "" && q.p(0.88) && !(tag == "x" && (q.faithful || q.p(0.85))) {
 			id = tag
 		} else {
 			q.stats["prop:by-field-name"]++
+		}
+		if q.faithful && id == f.Name {
+			// the field's own name may be another field's json tag (zmDup: "Y" is the tag of Z), and the tag
+			// wins in buildObjectFieldCache: two properties would share a field - outside the theorem's scope
+			for j := 0; j < rt.NumField(); j++ {
+				if j != i && strings.SplitN(rt.Field(j).Tag.Get("json"), ",", 2)[0] == id {
+					id = ""
+				}
+			}
+			if id == "" {
+				continue
+			}
 		}
 		if usedID[id] {
 			continue
@@ -897,11 +953,22 @@ func (q *smGen) object(z *zmType, depth int, ptrT bool) *sTy {
 				q.illFormed["mismatch+empty-is-default"] = true
 			}
 		}
-		if q.p(0.012) {
+		if q.p(0.02) && !hasIface(f.Type) {
+			// (a disabled property reads as unset while its field holds the zero value; like
+			// treat-empty-as-default it is kept off struct types with `any` fields, see DESIGN)
 			p.Disabled = true
 			q.stats["prop:disabled"]++
 		}
-		if q.p(0.25) {
+		if q.faithful && p.EmptyIsDefault && !(p.Ty.T == "leaf" && p.Ty.Ty.T != "obj") {
+			p.EmptyIsDefault = false
+		}
+		if q.faithful && p.EmptyIsDefault {
+			p.Required = false
+		}
+		if q.faithful && p.Disabled {
+			p.Required = false
+		}
+		if q.p(0.25) && !(q.faithful && (p.EmptyIsDefault || p.Disabled)) {
 			switch p.Ty.T {
 			case "leaf":
 				if d := q.defaultText(p.Ty.Ty); d != "" {
@@ -911,9 +978,9 @@ func (q *smGen) object(z *zmType, depth int, ptrT bool) *sTy {
 					p.Default = hx.MkDefault(d)
 				}
 			case "sobj", "scope":
-				if q.p(0.06) {
+				if q.p(0.06) && !q.faithful {
 					p.Default = hx.MkDefault(q.pickDefaultOdd())
-				} else if q.p(0.01) {
+				} else if q.p(0.01) && !q.faithful {
 					q.stats["prop:default-undecodable"]++
 					q.illFormed["bad-default"] = true
 					p.Default = hx.MkDefault("{")
@@ -930,23 +997,40 @@ func (q *smGen) object(z *zmType, depth int, ptrT bool) *sTy {
 				}
 			}
 		}
+		if q.faithful && !smPtrLike(f.Type) && !p.EmptyIsDefault && !p.Disabled && !p.Required && p.Default == nil {
+			// an optional property on a plain field comes back holding the zero value: its type must accept it
+			switch {
+			case p.Ty.T == "leaf" && (p.Ty.Ty.T == "list" || p.Ty.Ty.T == "map"):
+				p.EmptyIsDefault = true
+			case p.Ty.T == "leaf" && p.Ty.Ty.T != "obj" && p.Ty.Ty.T != "any":
+				p.Ty = q.leaf(smPlainOf(p.Ty.Ty))
+			default:
+				p.Required = true
+			}
+		}
+		ptrLikeID[id] = smPtrLike(f.Type)
 		t.Props = append(t.Props, sNamedProp{Name: id, P: p})
 	}
 	// a property without a field
-	if q.p(0.008) {
+	if q.p(0.008) && !q.faithful {
 		t.Props = append(t.Props, sNamedProp{Name: "zzz", P: &sProp{Ty: q.leaf(&hx.Ty{T: "bool"})}})
 		q.stats["prop:without-field"]++
 		q.illFormed["no-field"] = true
 	}
-	if rt.Name() == "zmDup" && q.p(0.1) && !usedID["x"] {
+	if rt.Name() == "zmDup" && q.p(0.1) && !usedID["x"] && !q.faithful {
 		t.Props = append(t.Props, sNamedProp{Name: "x", P: &sProp{Ty: q.leaf(&hx.Ty{T: "str"})}})
 		q.stats["prop:clashing-tags"]++
 		q.illFormed["no-field"] = true
 	}
 	// presence rules between the declared properties
 	ids := []string{}
+	ruleOK := map[string]bool{}
 	for _, np := range t.Props {
-		ids = append(ids, np.Name)
+		// (faithful: only properties whose presence survives the struct take part in rules)
+		if !q.faithful || (ptrLikeID[np.Name] && !np.P.EmptyIsDefault) {
+			ids = append(ids, np.Name)
+			ruleOK[np.Name] = true
+		}
 	}
 	pickOthers := func(self string) []string {
 		var out []string
@@ -963,6 +1047,9 @@ func (q *smGen) object(z *zmType, depth int, ptrT bool) *sTy {
 		return out
 	}
 	for _, np := range t.Props {
+		if !ruleOK[np.Name] {
+			continue
+		}
 		if q.p(0.05) {
 			np.P.RequiredIf = pickOthers(np.Name)
 			q.stats["prop:required-if"]++
@@ -1416,6 +1503,9 @@ func (r *smRunner) emit(t *sTy, mode int, op string, arg any, argEnc *hx.Val, cm
 		flags = append(flags, k)
 	}
 	sort.Strings(flags)
+	if r.q.faithful {
+		flags = append(flags, "faithful")
+	}
 	c := smCase{ID: r.s.nextID, Op: op, SSchema: t, SV: argEnc, Ext: smExt(t, argEnc), Fuel: 400, Cmp: cmp, Note: note, Mode: mode,
 		Flags: strings.Join(flags, ","), Runs: repeats}
 	b, err := json.Marshal(c)
@@ -1443,6 +1533,10 @@ func smRepeats(q *smGen) int {
 // group: one generated schema over one struct type with several inputs.
 func groupStructModel(s *sink, g *hx.Gen, q *smGen) {
 	q.illFormed = map[string]bool{}
+	q.faithful = q.p(0.35)
+	if q.faithful {
+		s.stats["structmodel:faithful-pair (scope of the end-to-end theorem)"]++
+	}
 	r := &smRunner{s: s, q: q}
 	z := zmTypes[g.R.Intn(len(zmTypes))]
 	if g.R.Intn(3) == 0 {
@@ -1489,6 +1583,9 @@ func groupStructModel(s *sink, g *hx.Gen, q *smGen) {
 					Cases: []int{s.nextID}, Input: raw, Detail: []string{string(sj)}})
 			}
 			continue
+		}
+		if q.faithful {
+			r.endToEnd(t, mode, raw, x)
 		}
 		// the planted single fault, with path comparison
 		r.planted(t, mode, raw, reps)
@@ -1552,6 +1649,60 @@ func groupStructModel(s *sink, g *hx.Gen, q *smGen) {
 			r.emit(t, mode, "SMS", wrong, we, "class", "wrong-type", reps)
 		}
 	}
+}
+
+// endToEnd evaluates the conclusion of C01_struct_end_to_end_partial directly on the implementation, for
+// a pair generated inside the theorem's scope and an input Unserialize accepted: the result validates
+// and serializes, the serialized form unserializes, to the identical value when no property of the
+// schema is treat-empty-as-default, and serializes to the identical wire form again.
+func (r *smRunner) endToEnd(t *sTy, mode int, raw *hx.Val, x any) {
+	r.s.stats["structmodel:end-to-end-evaluations"]++
+	fail := func(what string, detail ...string) {
+		sj, _ := json.Marshal(t)
+		r.s.finding(Finding{Prop: "C01", What: "struct-mapped round trip (pair in the scope of C01_struct_end_to_end_partial): " + what,
+			Cases: []int{r.s.nextID}, Input: raw, Detail: append(detail, string(sj))})
+	}
+	if v, _ := smRunGo(t, mode, "SMV", x); v.R != "ok" {
+		fail("the result of Unserialize fails Validate: " + v.Msg)
+		return
+	}
+	sres, w := smRunGo(t, mode, "SMS", x)
+	if sres.R != "ok" {
+		fail("the result of Unserialize fails Serialize: " + sres.Msg)
+		return
+	}
+	ures, x2 := smRunGo(t, mode, "SMU", w)
+	if ures.R != "ok" {
+		fail("the serialized form is rejected: " + ures.Msg)
+		return
+	}
+	if !smHasEmpty(t) && hx.Canon(encAny(x2)) != hx.Canon(encAny(x)) {
+		fail("Unserialize(Serialize(s)) differs from s", hx.Canon(encAny(x)), hx.Canon(encAny(x2)))
+		return
+	}
+	if v, _ := smRunGo(t, mode, "SMV", x2); v.R != "ok" {
+		fail("the value unserialized from the serialized form fails Validate: " + v.Msg)
+		return
+	}
+	s2, _ := smRunGo(t, mode, "SMS", x2)
+	if s2.R != "ok" || hx.Canon(s2.V) != hx.Canon(sres.V) {
+		fail("Serialize is not idempotent on wire forms", sres.JSON(), s2.JSON())
+	}
+}
+
+func smHasEmpty(t *sTy) bool {
+	if t == nil {
+		return false
+	}
+	if smHasEmpty(t.Item) || smHasEmpty(t.V) || smHasEmpty(t.Inner) {
+		return true
+	}
+	for _, np := range t.Props {
+		if np.P.EmptyIsDefault || smHasEmpty(np.P.Ty) {
+			return true
+		}
+	}
+	return false
 }
 
 func smHasScopeInside(t *sTy) bool {
@@ -1637,7 +1788,9 @@ func (r *smRunner) planted(t *sTy, mode int, raw *hx.Val, reps int) {
 					p = np.P
 				}
 			}
-			if p == nil || !p.Required || p.Default != nil {
+			if p == nil || !p.Required || p.Default != nil || p.Ty.T != "leaf" || p.Ty.Ty.T == "obj" {
+				// (an absent sub-object may be recreated from the defaults below it and then fail in several
+				// places at once: not a single fault)
 				continue
 			}
 			mentioned := false
@@ -1756,6 +1909,9 @@ func smFixed(s *sink, g *hx.Gen, q *smGen) {
 		{"required treat-empty-as-default property holding the zero value",
 			obj(reflect.TypeOf(zmInner{}), false, np("level", &sProp{Ty: intT(), Required: true, EmptyIsDefault: true})),
 			[]*hx.Val{hx.StrAny([2]*hx.Val{hx.Str("level"), hx.Int("int64", 0)}), hx.StrAny([2]*hx.Val{hx.Str("level"), hx.Int("int64", 3)})}},
+		{"a disabled property on a plain field reads as unset while the field holds the zero value",
+			obj(reflect.TypeOf(zmInner{}), false, np("tag", &sProp{Ty: strMin1(), Disabled: true}), np("level", &sProp{Ty: intT(), RequiredIfNot: []string{"tag"}})),
+			[]*hx.Val{hx.StrAny([2]*hx.Val{hx.Str("level"), hx.Int("int64", 1)}), hx.StrAny([2]*hx.Val{hx.Str("tag"), hx.Str("x")})}},
 		{"treat-empty-as-default behind a pointer: pointer to the zero value reads as unset",
 			obj(reflect.TypeOf(zmInner{}), false, np("p", &sProp{Ty: str(), EmptyIsDefault: true}), np("level", &sProp{Ty: intT(), RequiredIfNot: []string{"p"}})),
 			[]*hx.Val{hx.StrAny([2]*hx.Val{hx.Str("p"), hx.Str("")}), hx.StrAny([2]*hx.Val{hx.Str("p"), hx.Str("v")})}},
